@@ -2,6 +2,7 @@ package main
 
 import (
 	"fmt"
+	"go/token"
 	"go/types"
 	"sort"
 	"strings"
@@ -562,6 +563,53 @@ var ruleInputRO = &Rule{
 				out.viol(key, p.pos(w.Instr.Pos()), fnName(fn), "memory derived from "+bad+" is modified: the queried value or the variables would change under the caller's feet", reach.path(p, fn)...)
 			}
 		}
+		// Second clause: a caller-owned container never becomes executor-owned
+		// storage. Every store into a container-typed field of a module struct
+		// stores a fresh allocation, nil, append(that field, …) or another
+		// executor-owned field; never a container obtained from an item.
+		nfs := 0
+		for _, fn := range moduleFuncs(reach.Set) {
+			if fnPkgPath(fn) != pkgExec {
+				continue
+			}
+			for _, b := range fn.Blocks {
+				for _, ins := range b.Instrs {
+					st, ok := ins.(*ssa.Store)
+					if !ok {
+						continue
+					}
+					fa, ok := st.Addr.(*ssa.FieldAddr)
+					if !ok {
+						continue
+					}
+					ft := fa.Type().(*types.Pointer).Elem()
+					switch ft.Underlying().(type) {
+					case *types.Slice, *types.Map:
+					default:
+						continue
+					}
+					if !isItemish(ft) {
+						continue
+					}
+					owner := namedOf(fa.X.Type())
+					if owner == nil || owner.Obj().Pkg() == nil || !strings.HasPrefix(owner.Obj().Pkg().Path(), modPath) {
+						continue
+					}
+					if owner == p.A.Executor && fieldOf(fa) == p.A.VarsField {
+						continue // the variables map is the caller's and is only read (first clause)
+					}
+					nfs++
+					key := fmt.Sprintf("%s stores into %s.%s #%d", fnName(fn), owner.Obj().Name(), fieldName(fa), ord.next(fnName(fn)+"/field"))
+					if why := p.foreignContainer(fn, st.Val, 0); why != "" {
+						out.viol(key, p.pos(st.Pos()), fnName(fn), "a container the executor does not own ("+why+") becomes the backing store of "+owner.Obj().Name()+"."+fieldName(fa)+": a later append or element store would write into the caller's document", reach.path(p, fn)...)
+					} else {
+						out.ok(key, p.pos(st.Pos()), fnName(fn), "fresh allocation, nil, or append to executor-owned storage")
+					}
+				}
+			}
+		}
+		out.Counts["container_field_stores"] = nfs
+		out.Floors["container_field_stores"] = 2
 		out.Counts["container_writes_examined"] = n
 		out.Floors["container_writes_examined"] = 20
 		out.Counts["writes_into_caller_data"] = nsus
@@ -598,3 +646,79 @@ func returnsFreshContainer(fn *ssa.Function) bool {
 }
 
 func init() { register(ruleInputRO) }
+
+// foreignContainer: "" if v is provably executor-owned storage (fresh
+// allocation, nil, append/reslice of such, a load of a container field of a
+// module struct); otherwise a description of where it may come from.
+func (p *Prog) foreignContainer(fn *ssa.Function, v ssa.Value, depth int) string {
+	if depth > 8 {
+		return "too deep to follow"
+	}
+	v = stripConv(v)
+	switch x := v.(type) {
+	case *ssa.MakeSlice, *ssa.MakeMap:
+		return ""
+	case *ssa.Const:
+		if x.Value == nil {
+			return ""
+		}
+	case *ssa.Slice:
+		if a, ok := x.X.(*ssa.Alloc); ok && a.Heap {
+			return "" // slice literal
+		}
+		return p.foreignContainer(fn, x.X, depth+1)
+	case *ssa.Alloc:
+		return ""
+	case *ssa.Phi:
+		for _, e := range x.Edges {
+			if w := p.foreignContainer(fn, e, depth+1); w != "" {
+				return w
+			}
+		}
+		return ""
+	case *ssa.UnOp:
+		if x.Op == token.MUL {
+			if fa, ok := x.X.(*ssa.FieldAddr); ok {
+				if o := namedOf(fa.X.Type()); o != nil && o.Obj().Pkg() != nil && strings.HasPrefix(o.Obj().Pkg().Path(), modPath) {
+					if o == p.A.Executor && fieldOf(fa) == p.A.VarsField {
+						return "the variables map"
+					}
+					return ""
+				}
+			}
+		}
+	case *ssa.Call:
+		if bi, ok := x.Call.Value.(*ssa.Builtin); ok && bi.Name() == "append" {
+			return p.foreignContainer(fn, x.Call.Args[0], depth+1)
+		}
+		if freshStdlib[calleeQualified(&x.Call)] {
+			return ""
+		}
+		if sc := x.Call.StaticCallee(); sc != nil && inModule(sc) && returnsFreshContainer(sc) {
+			return ""
+		}
+		return "result of " + calleeName(&x.Call)
+	case *ssa.TypeAssert:
+		return "type assertion on an item at " + p.pos(x.Pos())
+	case *ssa.Extract:
+		if ta, ok := x.Tuple.(*ssa.TypeAssert); ok {
+			return "type assertion on an item at " + p.pos(ta.Pos())
+		}
+	case *ssa.Parameter:
+		return "parameter " + x.Name()
+	case *ssa.FreeVar:
+		return "captured variable " + x.Name()
+	}
+	return "value " + v.Name() + " of unknown origin"
+}
+
+func fieldOf(fa *ssa.FieldAddr) *types.Var {
+	t := fa.X.Type()
+	if pt, ok := t.Underlying().(*types.Pointer); ok {
+		t = pt.Elem()
+	}
+	if st, ok := t.Underlying().(*types.Struct); ok && fa.Field < st.NumFields() {
+		return st.Field(fa.Field)
+	}
+	return nil
+}
